@@ -121,14 +121,72 @@ func c05Scenarios(tier string) []*Scenario {
 		add("G5-gc-cancel-vs-set-a", c05Run(wSetA, rA, true, true, true))
 		add("G6-gc-vs-2sets", c05Run(func(rec *Recorder) { rec.Set(1, "a", val(1, 0, "a", 0)); rec.Set(1, "b", val(1, 1, "b", 0)) }, rAB, false, false, false))
 	}
-	_ = fmt.Sprint
+	// G8: a key "d" with the same 64-bit hash as "a" is written for the FIRST time while the pass runs (a's current record
+	// lies in the collected range): the pass must still keep a's record (it finds the new key in the hint buffers), and both
+	// keys must read their own value afterwards, also after a restart. Values only: versions of colliding keys are not compared.
+	{
+		c := cfgSched("G8-gc-vs-first-set-of-colliding-key")
+		h := map[string]uint64{}
+		for k, v := range hashAB {
+			h[k] = v
+		}
+		h["d"] = hashAB["a"]
+		c.Hash = h
+		out = append(out, &Scenario{Property: "C05", Name: c.Name, Cfg: c, Run: func(sc *Scenario, s *vsched.Sched) (*Mismatch, string) {
+			m := NewMachine(s, sc.Cfg, nil)
+			defer m.Exit()
+			rec := &Recorder{st: m.St}
+			gcLayout(m, rec)
+			wantA, wantD := val(0, 1, "a", 0), val(1, 0, "d", 0)
+			var setErr error
+			s.Parallel(
+				func() { m.St.VerifGCDirect(0, 0, 1, false) },
+				func() { _, setErr = hsSet(m.St, "d", []byte(wantD), 0, 0) },
+			)
+			obs := fmt.Sprint("set d: ", setErr)
+			if g := m.St.VerifLastGC(0); g != nil && g.Err != nil {
+				return &Mismatch{Op: "gc", Where: "pass", Want: "no error", Got: g.Err.Error(), Class: "gc-error"}, obs
+			}
+			if setErr != nil {
+				return &Mismatch{Op: "set d", Where: "reply", Want: "stored", Got: setErr.Error(), Class: "set-error"}, obs
+			}
+			check := func(where string) *Mismatch {
+				for _, kv := range [][2]string{{"a", wantA}, {"d", wantD}} {
+					body, _, _, present, err := hsGet(m.St, kv[0])
+					got := body
+					if err != nil {
+						got = "error: " + err.Error()
+					} else if !present {
+						got = "miss"
+					}
+					if got != kv[1] {
+						return &Mismatch{Op: where + ":" + kv[0], Where: where, Key: kv[0], Want: kv[1], Got: got, Class: where + "-collide-" + map[bool]string{true: "lost", false: "wrong"}[got == "miss"]}
+					}
+				}
+				return nil
+			}
+			if mm := check("final"); mm != nil {
+				return mm, obs
+			}
+			m.St.Close()
+			m.Exit()
+			if err := m.Open(); err != nil {
+				return &Mismatch{Op: "reopen", Where: "open", Want: "opens", Got: err.Error(), Class: "open-error"}, obs
+			}
+			s.Drain()
+			if mm := check("reopen"); mm != nil {
+				return mm, obs
+			}
+			return nil, obs
+		}})
+	}
 	_ = store.MAX_NUM_CHUNK
 	return out
 }
 
 func C05(job *Job, r *Report) {
 	r.Level = "model_checking"
-	r.Rule = "stateless model checking under the controlled scheduler: a store prepared with file0=[a1][a2], file1=[b1][c1], head=[c2] (so a pass over [0,1] relocates a's and b's current records and drops two superseded ones); threads: one GC pass (gcMgr.gc directly or through HStore.GC, optionally a canceller), one writer (set a / delete a / set b), one reader (get a, get b); EVERY interleaving at lock acquisitions, file-system calls, spawns (these bracket GC's newest-check, copy, tree repoint, hint write, source clear) with at most N preemptions (quick 2, thorough 3; the two heavier scenarios - with a canceller thread, with two client writes - one less); oracle: C04's conditions with the documented relaxation (a read overlapping the pass may return an error or a miss, never a wrong or stale value), after the pass every key reads its last acknowledged write, again after Close + exit + reopen with and without the tree dump, and (G7) after a kill that follows the pass"
+	r.Rule = "stateless model checking under the controlled scheduler: a store prepared with file0=[a1][a2], file1=[b1][c1], head=[c2] (so a pass over [0,1] relocates a's and b's current records and drops two superseded ones); threads: one GC pass (gcMgr.gc directly or through HStore.GC, optionally a canceller), one writer (set a / delete a / set b), one reader (get a, get b); EVERY interleaving at lock acquisitions, file-system calls, spawns (these bracket GC's newest-check, copy, tree repoint, hint write, source clear) with at most N preemptions (quick 2, thorough 3; the two heavier scenarios - with a canceller thread, with two client writes - one less); oracle: C04's conditions with the documented relaxation (a read overlapping the pass may return an error or a miss, never a wrong or stale value), after the pass every key reads its last acknowledged write, again after Close + exit + reopen with and without the tree dump, and (G7) after a kill that follows the pass; (G8) a key with the same 64-bit hash as a relocated key is written for the first time during the pass: both keys must read their own value afterwards and after a restart"
 	r.Assumptions = []string{"sequentially consistent interleavings at synchronisation/file-system granularity", "cgo calls atomic"}
 	bound := 2
 	if job.Tier != "quick" {
